@@ -137,7 +137,7 @@ def run_case(case, ctx):
             # one licence text reachable under two names through a link inside LICENSES/: whatever the tool makes of that
             # (today: a usage error), it must make the same of it in every run
             (root / "LICENSES" / "texts").mkdir(parents=True, exist_ok=True)
-            (root / "LICENSES" / "texts" / "Zlib").write_text("zlib text\n")
+            (root / "LICENSES" / "texts" / "BSL-1.0").write_text("boost text\n")
             (root / "LICENSES" / "texts" / "NotAnId.txt").write_text("text\n")
             os.symlink("texts", root / "LICENSES" / "alias")
         if git:
